@@ -487,6 +487,9 @@ def gen_random(rng, allow_steady=True, min_len=3, max_len=8):
             style = rng.random()
             lo = now if style < 0.7 else max(Fraction(0), now - 2)
             pts = sorted({lo + Fraction(rng.randint(0, 14), 4) for _ in range(k)})
+            if now > 0 and rng.random() < 0.15:
+                # a requested point just after the time reached (2^-20 later): still a distinct, later point
+                pts = sorted(set(pts) | {now + Fraction(1, 2 ** 20)})
             if style > 0.9:
                 rng.shuffle(pts)
             elif style > 0.85 and pts:
